@@ -5,3 +5,6 @@ cd /repo && git apply $D/patch.diff || exit 1
 cd /verif
 for P in "$@"; do R=$(./check $P 2>&1 | grep -E "^VIOLATION|^OK" | head -1 | cut -c1-110); echo "$ID vs $P: $R"; done
 git -C /repo checkout -- .
+# regenerate the translated files from the restored tree
+python3 /verif/translator/extract.py /repo /verif/lean/Tv/Generated.lean >/dev/null
+python3 /verif/translator/closures.py /repo /verif/lean/Tv/GenClosures.lean >/dev/null
